@@ -331,5 +331,5 @@ def _signal_update_assets_conc(c):
     c.ob('universe-asked-at-dt-only', all(q == dt for q in uni.queries), props=['C07', 'C16'])
 
 
-canary('tracked assets replaced by the universe', Signal, 'update_assets', 'list(set(universe_assets) - set(self.assets))', 'list(set(universe_assets))')(signal_update_assets)
+canary('tracked assets replaced by the universe', Signal, 'update_assets', 'list(set(universe_assets) - set((self.assets)))', 'list(set(universe_assets))')(signal_update_assets)
 canary('universe asked at the start date', Signal, 'update_assets', 'self.universe.get_assets(dt)', 'self.universe.get_assets(self.start_dt)')(signal_update_assets)
